@@ -162,3 +162,98 @@ Theorem C10_generated_enable_is_model : forall E fuel hs s b s',
   SchedApi.Inv s -> Sched.step_op E fuel hs s (Sched.OEnable b) = (s', Sched.Done) -> GenSchedEq.gen_set_enabled E fuel b s = Some (s', GenRt.Ret).
 Proof. exact GenSchedEq.gen_enable_is_model. Qed.
 Print Assumptions C10_generated_enable_is_model.
+
+(* ---- the fully generated asynchronous stack (GenAsyncSystem.v): generated managers on TaskMgr.v's event loop, generated executor on top ---- *)
+
+(* ---- the fully generated asynchronous stack (theories/GenAsyncSystem.v): [gen_arun] runs the generated
+   AsyncExecutor (which coroutine `execute` hands to the manager: g_AsyncExecutor_execute_submits; what one resumption
+   of `_execute` does and whether process_exception is called: g_AsyncExecutor_execute_step) on the event machine
+   built from the generated manager classes (create_task at Submit events and inside bodies, the registered
+   done-callbacks at HDone handles); the event loop is TaskMgr.v's.  It computes AsyncExec.arun on every event list. *)
+From EAS Require GenRtTaskMgr GenTaskMgrEq GenAsyncSystem.
+Theorem C10_generated_async_stack_is_model :
+  forall nm m evs, GenTaskMgrEq.cfg_ok m ->
+    GenAsyncSystem.gen_arun nm m evs = GenAsyncSystem.aemb m (arun m evs).
+Proof. exact GenAsyncSystem.gen_async_stack_is_model. Qed.
+Print Assumptions C10_generated_async_stack_is_model.
+
+Theorem C10_generated_async_stack_parts :
+  forall nm m evs, GenTaskMgrEq.cfg_ok m ->
+    GenAsyncSystem.gms (GenAsyncSystem.gsys (GenAsyncSystem.gen_arun nm m evs)) = ast (arun m evs) /\
+    GenAsyncSystem.ghlog (GenAsyncSystem.gen_arun nm m evs) = hlog (arun m evs) /\
+    GenAsyncSystem.gulog (GenAsyncSystem.gen_arun nm m evs) = ulog (arun m evs) /\
+    GenAsyncSystem.regs_ok m (GenAsyncSystem.gsys (GenAsyncSystem.gen_arun nm m evs)) /\
+    GenAsyncSystem.gexc (GenAsyncSystem.gsys (GenAsyncSystem.gen_arun nm m evs)) = [].
+Proof. exact GenAsyncSystem.gen_async_stack_parts. Qed.
+Print Assumptions C10_generated_async_stack_parts.
+
+Theorem C10_generated_async_stack_handled_at_most_once :
+  forall nm m evs, GenTaskMgrEq.cfg_ok m -> NoDup (GenAsyncSystem.ghlog (GenAsyncSystem.gen_arun nm m evs)).
+Proof. exact GenAsyncSystem.gen_async_stack_handled_at_most_once. Qed.
+Print Assumptions C10_generated_async_stack_handled_at_most_once.
+
+Theorem C10_generated_async_stack_handled_iff_raised :
+  forall nm m evs c, GenTaskMgrEq.cfg_ok m ->
+    (In c (GenAsyncSystem.ghlog (GenAsyncSystem.gen_arun nm m evs)) <->
+     exists w n, In (c, w, n) (GenAsyncSystem.gulog (GenAsyncSystem.gen_arun nm m evs)) /\
+                 (n = TaskMgr.NRaise \/ (n = TaskMgr.NFin /\ w = TaskMgr.WExc))).
+Proof. exact GenAsyncSystem.gen_async_stack_handled_iff_raised. Qed.
+Print Assumptions C10_generated_async_stack_handled_iff_raised.
+
+Theorem C10_generated_async_stack_handler_log_exact :
+  forall nm m evs, GenTaskMgrEq.cfg_ok m ->
+    GenAsyncSystem.ghlog (GenAsyncSystem.gen_arun nm m evs) =
+    map who (filter is_raise (GenAsyncSystem.gulog (GenAsyncSystem.gen_arun nm m evs))).
+Proof. exact GenAsyncSystem.gen_async_stack_handler_log_exact. Qed.
+Print Assumptions C10_generated_async_stack_handler_log_exact.
+
+Theorem C10_generated_async_stack_no_task_exception :
+  forall nm m evs c d, GenTaskMgrEq.cfg_ok m ->
+    TaskMgr.ph (GenAsyncSystem.gms (GenAsyncSystem.gsys (GenAsyncSystem.gen_arun nm m evs))) c = TaskMgr.Done d \/
+    TaskMgr.ph (GenAsyncSystem.gms (GenAsyncSystem.gsys (GenAsyncSystem.gen_arun nm m evs))) c = TaskMgr.Processed d ->
+    d = TaskMgr.DRet \/ d = TaskMgr.DCanc.
+Proof. exact GenAsyncSystem.gen_async_stack_no_task_exception. Qed.
+Print Assumptions C10_generated_async_stack_no_task_exception.
+
+Theorem C10_generated_async_stack_no_manager_exception :
+  forall nm m evs, GenTaskMgrEq.cfg_ok m ->
+    GenAsyncSystem.gexc (GenAsyncSystem.gsys (GenAsyncSystem.gen_arun nm m evs)) = [] /\
+    GenAsyncSystem.regs_ok m (GenAsyncSystem.gsys (GenAsyncSystem.gen_arun nm m evs)).
+Proof. exact GenAsyncSystem.gen_async_stack_no_manager_exception. Qed.
+Print Assumptions C10_generated_async_stack_no_manager_exception.
+
+Theorem C10_generated_async_stack_not_handled :
+  forall nm m evs c, GenTaskMgrEq.cfg_ok m ->
+    (In c (TaskMgr.closed (GenAsyncSystem.gms (GenAsyncSystem.gsys (GenAsyncSystem.gen_arun nm m evs)))) ->
+       (forall w n, ~ In (c, w, n) (GenAsyncSystem.gulog (GenAsyncSystem.gen_arun nm m evs))) /\
+       ~ In c (GenAsyncSystem.ghlog (GenAsyncSystem.gen_arun nm m evs))) /\
+    (In (c, TaskMgr.WCanc, TaskMgr.NFin) (GenAsyncSystem.gulog (GenAsyncSystem.gen_arun nm m evs)) ->
+       ~ In c (GenAsyncSystem.ghlog (GenAsyncSystem.gen_arun nm m evs))) /\
+    ((exists w, In (c, w, TaskMgr.NRet) (GenAsyncSystem.gulog (GenAsyncSystem.gen_arun nm m evs))) \/
+     In (c, TaskMgr.WRes, TaskMgr.NFin) (GenAsyncSystem.gulog (GenAsyncSystem.gen_arun nm m evs)) ->
+       ~ In c (GenAsyncSystem.ghlog (GenAsyncSystem.gen_arun nm m evs))).
+Proof. exact GenAsyncSystem.gen_async_stack_not_handled. Qed.
+Print Assumptions C10_generated_async_stack_not_handled.
+
+Theorem C10_generated_async_stack_handled_task_done :
+  forall nm m evs c, GenTaskMgrEq.cfg_ok m ->
+    In c (GenAsyncSystem.ghlog (GenAsyncSystem.gen_arun nm m evs)) ->
+    exists d,
+      (TaskMgr.ph (GenAsyncSystem.gms (GenAsyncSystem.gsys (GenAsyncSystem.gen_arun nm m evs))) c = TaskMgr.Done d \/
+       TaskMgr.ph (GenAsyncSystem.gms (GenAsyncSystem.gsys (GenAsyncSystem.gen_arun nm m evs))) c = TaskMgr.Processed d) /\
+      (d = TaskMgr.DRet \/ d = TaskMgr.DCanc).
+Proof. exact GenAsyncSystem.gen_async_stack_handled_task_done. Qed.
+Print Assumptions C10_generated_async_stack_handled_task_done.
+
+Theorem C10_generated_async_stack_inv :
+  forall nm m evs, GenTaskMgrEq.cfg_ok m ->
+    TaskMgrFacts.Inv m (GenAsyncSystem.gms (GenAsyncSystem.gsys (GenAsyncSystem.gen_arun nm m evs))) /\
+    TaskMgrFacts.conservation_stmt (GenAsyncSystem.gms (GenAsyncSystem.gsys (GenAsyncSystem.gen_arun nm m evs))).
+Proof. exact GenAsyncSystem.gen_async_stack_inv. Qed.
+Print Assumptions C10_generated_async_stack_inv.
+
+(* the wrapper the generated machine runs is the generated `_execute`, proved equal to AsyncExec.wrap_beh *)
+Theorem C10_generated_async_stack_wrapper :
+  forall w b, GenAsyncSystem.gen_wrapper w b = (wrap_beh w b, handler_called (user_out w (snd b))).
+Proof. exact GenAsyncSystem.gen_wrapper_is_wrap. Qed.
+Print Assumptions C10_generated_async_stack_wrapper.
